@@ -118,17 +118,45 @@ def _render(lines):
 
 
 FLOWS = [
-    # (flow name, statement entry, language need, kind)
-    ("char_in_buf", "c_char_*_in_buf", "any", "in"),
-    ("char_out_buf", "c_char_*_out_buf", "any", "out"),
-    ("char_inout_buf", "c_char_*_inout_buf", "any", "inout"),
-    ("char_result_buf", "c_char_*_result_buf", "any", "result"),
-    ("string_in_buf", "c_string_*/&_in_buf", "c++", "sin"),
-    ("string_scalar_in_buf", "c_string_scalar_in_buf", "c++", "sin"),
-    ("string_out_buf", "c_string_*/&_out_buf", "c++", "sout"),
-    ("string_inout_buf", "c_string_*/&_inout_buf", "c++", "sinout"),
-    ("string_result_buf", "c_string_scalar/*/&_result_buf", "c++", "sresult"),
+    # (flow name, lookup path in the resolved statement tree, language need, kind)
+    ("char_in_buf", ["c", "char", "*", "in", "buf"], "any", "in"),
+    ("char_out_buf", ["c", "char", "*", "out", "buf"], "any", "out"),
+    ("char_inout_buf", ["c", "char", "*", "inout", "buf"], "any", "inout"),
+    ("char_result_buf", ["c", "char", "*", "result", "buf"], "any", "result"),
+    ("char_scalar_result_buf", ["c", "char", "scalar", "result", "buf"], "any", "cscalar"),
+    ("string_in_buf", ["c", "string", "&", "in", "buf"], "c++", "sin"),
+    ("string_ptr_in_buf", ["c", "string", "*", "in", "buf"], "c++", "sin"),
+    ("string_scalar_in_buf", ["c", "string", "scalar", "in", "buf"], "c++", "sin"),
+    ("string_out_buf", ["c", "string", "&", "out", "buf"], "c++", "sout"),
+    ("string_inout_buf", ["c", "string", "&", "inout", "buf"], "c++", "sinout"),
+    ("string_ptr_inout_buf", ["c", "string", "*", "inout", "buf"], "c++", "sinout"),
+    ("string_result_buf", ["c", "string", "scalar", "result", "buf"], "c++", "sresult"),
+    # TS 29113 (F_CFI) variants: the argument is a CFI_cdesc_t built by the harness
+    ("char_in_cfi", ["c", "char", "*", "in", "cfi"], "any", "in"),
+    ("char_out_cfi", ["c", "char", "*", "out", "cfi"], "any", "out"),
+    ("char_inout_cfi", ["c", "char", "*", "inout", "cfi"], "any", "inout"),
+    ("char_result_cfi", ["c", "char", "*", "result", "cfi"], "any", "result"),
+    ("char_scalar_result_cfi", ["c", "char", "scalar", "result", "cfi"], "any", "cscalar"),
+    ("string_in_cfi", ["c", "string", "&", "in", "cfi"], "c++", "sin"),
+    ("string_scalar_in_cfi", ["c", "string", "scalar", "in", "cfi"], "c++", "sin"),
+    ("string_out_cfi", ["c", "string", "&", "out", "cfi"], "c++", "sout"),
+    ("string_inout_cfi", ["c", "string", "&", "inout", "cfi"], "c++", "sinout"),
+    ("string_result_cfi", ["c", "string", "scalar", "result", "cfi"], "c++", "sresult"),
 ]
+# allocatable results through CFI_allocate: (name, path, language need, kind)
+AFLOWS = [
+    ("char_result_cfi_allocatable", ["c", "char", "*", "result", "cfi", "allocatable"], "any", "aresult"),
+    ("string_result_cfi_allocatable", ["c", "string", "*", "result", "cfi", "allocatable"], "c++", "asresult"),
+    ("string_scalar_result_cfi_allocatable", ["c", "string", "scalar", "result", "cfi", "allocatable"], "c++", "asresult"),
+]
+# std::vector<std::string> arguments: CHARACTER(len) a(size)
+VFLOWS = [
+    ("vector_string_in_buf", ["c", "vector", "in", "buf", "string"], "vin"),
+    ("vector_string_out_buf", ["c", "vector", "out", "buf", "string"], "vout"),
+    ("vector_string_inout_buf", ["c", "vector", "inout", "buf", "string"], "vinout"),
+    ("char_pp_in_buf", ["c", "char", "**", "in", "buf"], "arrin"),
+]
+FLOW_KIND = {n: k for (n, _p, _l, k) in FLOWS}
 
 
 def stmt_table():
@@ -165,11 +193,14 @@ def extract(language):
     helpers += "void %s(%s *cap);\n" % (fd.C_memory_dtor_function, fd.C_capsule_data_type)
     helpers += _render([texts[n] for n in texts if n not in order])
 
-    st = stmt_table()
+    from shroud import statements
+    statements.update_statements_for_language(language)
+    raw = stmt_table()
     fmt = util.Scope(fd)
     fmt.c_var = "c_var"
     fmt.c_var_len = "c_var_len"
     fmt.c_var_trim = "c_var_trim"
+    fmt.c_var_size = "c_var_size"
     fmt.cxx_var = "cxx_var"
     fmt.c_var_context = "ctx"
     fmt.cxx_nonconst_ptr = "(char *) cxx_var"
@@ -177,9 +208,14 @@ def extract(language):
     fmt.sh_type = "SH_TYPE_CHAR"
     fmt.c_const = ""
     fmt.cxx_member = "."
+    fmt.cxx_T = "std::string"
 
     def body(entry, clause):
-        return _render([util.wformat(l, fmt) for l in st[entry].get(clause, [])])
+        return _render([util.wformat(l, fmt) for l in raw[entry].get(clause, [])])
+
+    def rbody(path, clause):
+        blk = statements.lookup_fc_stmts(path)
+        return _render([util.wformat(l, fmt) for l in (getattr(blk, clause, None) or [])])
 
     s = []
     s.append("static void stmt_charscalar(char *c_var, int c_var_len, char cxx_var)\n{\n%s}\n" %
@@ -194,21 +230,31 @@ static void lib_out(char *p, const char *s, int ns) { memcpy(p, s, ns); p[ns] = 
 #ifdef __cplusplus
 static void lib_in_str(const std::string &x) { g_seen_n = (int) x.size(); memcpy(g_seen, x.data(), x.size() < 256 ? x.size() : 255); }
 #endif
+#define CFI_SCALAR_DESC(name, base, n, attr) \\
+    CFI_CDESC_T(0) name##_storage; CFI_cdesc_t *name = (CFI_cdesc_t *) &name##_storage; \\
+    memset(&name##_storage, 0, sizeof name##_storage); \\
+    name->base_addr = (base); name->elem_len = (size_t) (n); name->version = CFI_VERSION; \\
+    name->rank = 0; name->attribute = (attr); name->type = CFI_type_char;
 """)
     names = []
-    for fname, entry, need, kind in FLOWS:
+    for fname, path, need, kind in FLOWS:
         if need == "c++" and language != "c++":
             continue
-        pre, post = body(entry, "pre_call"), body(entry, "post_call")
+        cfi = path[-1] == "cfi"
+        pre, post = rbody(path, "pre_call"), rbody(path, "post_call")
+        blk = statements.lookup_fc_stmts(path)
         if kind == "in":
             mid = "lib_in(cxx_var);\n"
         elif kind == "out":
-            pre = "char *cxx_var = c_var;\n" + pre
+            if not cfi:
+                pre = "char *cxx_var = c_var;\n" + pre     # no local: the library writes into the Fortran variable
             mid = "lib_out(cxx_var, s, ns);\n"
         elif kind == "inout":
             mid = "lib_in(cxx_var);\nlib_out(cxx_var, s, ns);\n"
         elif kind == "result":
             mid = "const char *cxx_var = s;\n"
+        elif kind == "cscalar":
+            mid = "char cxx_var = s[0];\n"
         elif kind == "sin":
             mid = "lib_in_str(cxx_var);\n"
         elif kind == "sout":
@@ -217,12 +263,57 @@ static void lib_in_str(const std::string &x) { g_seen_n = (int) x.size(); memcpy
             mid = "lib_in_str(cxx_var);\ncxx_var.assign(s, ns);\n"
         elif kind == "sresult":
             mid = "std::string cxx_var(s, ns);\n"
-        s.append("static void flow_%s(char *c_var, int c_var_trim, int c_var_len, const char *s, int ns)\n{\n"
-                 "(void) c_var; (void) c_var_trim; (void) c_var_len; (void) s; (void) ns;\n%s%s%s}\n" % (fname, pre, mid, post))
+        if cfi:
+            head = ("static void flow_%s(char *SHbase, int SHtrim, int SHlen, const char *s, int ns)\n{\n"
+                    "(void) SHtrim; (void) s; (void) ns;\n"
+                    "CFI_SCALAR_DESC(%sc_var, SHbase, SHlen, CFI_attribute_other)\n" % (fname, fd.cfi_prefix))
+        else:
+            head = ("static void flow_%s(char *c_var, int c_var_trim, int c_var_len, const char *s, int ns)\n{\n"
+                    "(void) c_var; (void) c_var_trim; (void) c_var_len; (void) s; (void) ns;\n" % fname)
+        s.append(head + pre + mid + post + "}\n")
         names.append(fname)
     s.append("typedef void (*flow_fn)(char *, int, int, const char *, int);\n"
              "static struct { const char *name; flow_fn fn; } g_flows[] = {\n%s {NULL, NULL}};\n" %
              "".join(' {"%s", flow_%s},\n' % (n, n) for n in names))
+    # allocatable results through the descriptor
+    anames = []
+    for fname, path, need, kind in AFLOWS:
+        if need == "c++" and language != "c++":
+            continue
+        post = rbody(path, "post_call")
+        mid = "const char *cxx_var = s;\n" if kind == "aresult" else "std::string cxx_var(s, ns);\n"
+        s.append("static void aflow_%s(CFI_cdesc_t *%sc_var, const char *s, int ns)\n{\n(void) ns;\n%s%s}\n" %
+                 (fname, fd.cfi_prefix, mid, post))
+        anames.append(fname)
+    s.append("typedef void (*aflow_fn)(CFI_cdesc_t *, const char *, int);\n"
+             "static struct { const char *name; aflow_fn fn; } g_aflows[] = {\n%s {NULL, NULL}};\n" %
+             "".join(' {"%s", aflow_%s},\n' % (n, n) for n in anames))
+    # std::vector<std::string>
+    if language == "c++":
+        s.append("""
+#include <vector>
+#include <algorithm>
+static std::vector<std::string> g_vseen; static int g_vseen_set;
+static void lib_in_vec(const std::vector<std::string> &x) { g_vseen = x; g_vseen_set = 1; }
+static void lib_in_arr(char **a, long n) { g_vseen.clear(); for (long i = 0; i < n; i++) g_vseen.push_back(std::string(a[i])); g_vseen_set = 1; }
+""")
+        vnames = []
+        for fname, path, kind in VFLOWS:
+            pre, post = rbody(path, "pre_call"), rbody(path, "post_call")
+            if kind == "vin":
+                mid = "lib_in_vec(cxx_var);\n"
+            elif kind == "arrin":
+                mid = "lib_in_arr(cxx_var, c_var_size);\n"
+            elif kind == "vout":
+                mid = "cxx_var = out;\n"
+            else:
+                mid = "lib_in_vec(cxx_var);\ncxx_var = out;\n"
+            s.append("static void vflow_%s(char *c_var, long c_var_size, int c_var_len, const std::vector<std::string> &out)\n{\n"
+                     "(void) out;\n%s%s%s}\n" % (fname, pre, mid, post))
+            vnames.append(fname)
+        s.append("typedef void (*vflow_fn)(char *, long, int, const std::vector<std::string> &);\n"
+                 "static struct { const char *name; vflow_fn fn; } g_vflows[] = {\n%s {NULL, NULL}};\n" %
+                 "".join(' {"%s", vflow_%s},\n' % (n, n) for n in vnames))
     return helpers, "".join(s), used
 
 
@@ -238,8 +329,8 @@ def build(d, language):
         cmd = ["g++", "-x", "c++", "-std=c++11"]
     else:
         cmd = ["gcc", "-x", "c", "-std=gnu99"]
-    cmd += ["-O1", "-g0", "-w", "-fsanitize=address,undefined", "-fsanitize-recover=address,undefined", "-fno-sanitize=nonnull-attribute",
-            "-fno-omit-frame-pointer", "-I", sub, HARNESS, "-o", exe]
+    cmd += ["-O1", "-g0", "-w", "-fsanitize=address,undefined", "-fsanitize-recover=address,undefined",
+            "-fno-omit-frame-pointer", "-I", sub, HARNESS, "-o", exe, "-lgfortran"]
     p = subprocess.run(cmd, stdout=subprocess.PIPE, stderr=subprocess.STDOUT, text=True, timeout=600)
     if p.returncode != 0:
         return None, p.stdout, used
@@ -487,7 +578,7 @@ def oracle(req, ans):
             return "char scalar result is %r, rule gives %s" % (ans, encb(want))
     elif op == "flow":
         name, t, s = f[1], decb(f[2]), decb(f[3])
-        kind = [k for (n, _e, _l, k) in FLOWS if n == name][0]
+        kind = FLOW_KIND[name]
         L = len(t)
         if not ans.startswith("ok "):
             return "%s: access outside the Fortran variable or the scratch copy (%r)" % (name, ans)
@@ -503,10 +594,49 @@ def oracle(req, ans):
         if kind == "in" or kind == "sin":
             if fv != t:
                 return "%s: intent(in) argument changed to %s" % (name, f_t)
+        elif kind == "cscalar":
+            want = [s[0]] + [B] * (L - 1)
+            if fv != want:
+                return "%s: Fortran variable is %s, rule (the character, blank-padded to %d) gives %s" % (name, f_t, L, encb(want))
         else:
             want = fassign(L, [] if s is None else s)
             if fv != want:
                 return "%s: Fortran variable is %s, rule (truncate or blank-pad to %d) gives %s" % (name, f_t, L, encb(want))
+    elif op == "aflow":
+        name, s = f[1], decb(f[2])
+        if not ans.startswith("ok f="):
+            return "%s: access outside the result text or the allocated value (%r)" % (name, ans)
+        got = ans[5:]
+        if s is None:
+            # an unallocated function result reads as a zero-length value (gfortran); see assumptions
+            if got not in ("unallocated", "-"):
+                return "%s: NULL result gives %s, rule: zero-length value" % (name, got)
+        elif got == "unallocated" or decb(got) != s:
+            return "%s: allocatable value is %s, the text is %s (length %d)" % (name, got, encb(s), len(s))
+    elif op == "vflow":
+        name, t, size, ln = f[1], decb(f[2]), int(f[3]), int(f[4])
+        outs = [] if f[5] == "~" else [decb(x) for x in f[5].split(";")]
+        kind = [k for (n, _p, k) in VFLOWS if n == name][0]
+        if not ans.startswith("ok "):
+            return "%s: access outside the Fortran array (%r)" % (name, ans)
+        seen_t, f_t = ans[3:].split(" ")
+        fv = decb(f_t[2:])
+        if kind in ("vin", "vinout", "arrin"):
+            want = [rtrim(t[i * ln:(i + 1) * ln]) for i in range(size)]
+            if kind == "arrin":
+                want = [w[:w.index(Z)] if Z in w else w for w in want]
+            wt = "seen=" + (";".join(encb(w) for w in want) if want else "~")
+            if seen_t != wt:
+                return "%s: C++ receives %s for the Fortran array %s, rule: each element without trailing blanks (%s)" % (name, seen_t, encb(t), wt)
+        if kind in ("vin", "arrin"):
+            if fv != t:
+                return "%s: intent(in) array changed to %s" % (name, f_t)
+        else:
+            want = list(t)
+            for i in range(min(size, len(outs))):
+                want[i * ln:(i + 1) * ln] = fassign(ln, outs[i])
+            if fv != want:
+                return "%s: Fortran array is %s, rule (each returned element truncated or blank-padded to %d) gives %s" % (name, f_t, ln, encb(want))
     return None
 
 
@@ -520,6 +650,11 @@ def flow_requests(N, language):
                 if kind in ("in", "sin"):
                     R.append("flow %s %s -" % (fname, encb(t)))
                     continue
+                if kind == "cscalar":
+                    if L:
+                        for c in ALPHA:
+                            R.append("flow %s %s %d" % (fname, encb(t), c))
+                    continue
                 for m in range(N + 1):
                     if kind == "out" and m >= L:
                         continue      # documented: the variable must have room for the text and its NUL
@@ -531,6 +666,34 @@ def flow_requests(N, language):
                         R.append("flow %s %s %s" % (fname, encb(t), encb(s)))
                 if kind == "result":
                     R.append("flow %s %s N" % (fname, encb(t)))
+    # allocatable results through CFI_allocate
+    for fname, _path, need, kind in AFLOWS:
+        if need == "c++" and language != "c++":
+            continue
+        if kind == "aresult":
+            R.append("aflow %s N" % fname)
+        for m in range(N + 1):
+            for s in bufs(m, (A, B) if kind == "aresult" else ALPHA):
+                R.append("aflow %s %s" % (fname, encb(s)))
+    # std::vector<std::string>
+    if language == "c++":
+        elems = [[], [A], [A, B], [A, A, A]]
+        for fname, _path, kind in VFLOWS:
+            for ln in range(0, 3):
+                for size in range(0, 4):
+                    if ln * size > N:
+                        continue
+                    ts = list(bufs(ln * size, (A, B))) if kind != "vout" else [tuple([120] * (ln * size))]
+                    if kind in ("vin", "arrin"):
+                        olists = [[]]
+                    else:
+                        olists = []
+                        for k in range(0, min(size + 1, 3) + 1):
+                            olists.extend(itertools.product(elems[:3] if kind == "vinout" else elems, repeat=k))
+                    for t in ts:
+                        for ol in olists:
+                            R.append("vflow %s %s %d %d %s" % (fname, encb(t), size, ln,
+                                                                ";".join(encb(o) for o in ol) if ol else "~"))
     return R
 
 
@@ -707,7 +870,11 @@ def nontrivial(req, ans):
 def run(ctx):
     thorough = ctx.tier == "thorough"
     N = 8 if thorough else 6
+    from tools import extract_strstmts
+    _changed, terr = extract_strstmts.regenerate()      # (T) Gen/StrStmts.lean from the working tree
     ok = ctx.lean(MODULES, THEOREMS, extra_targets=("drv_strhelpers",))
+    if terr:
+        ctx.tie_broken("statement-translator", terr)
     drv = common.Driver("drv_strhelpers")
     ctx.cov["trusted_base"] = [
         "Lean 4.33.0 kernel; axioms within {propext, Classical.choice, Quot.sound}",
@@ -755,21 +922,22 @@ def run(ctx):
                 continue
             reqs = corpus_requests()
             if language == "c":
-                reqs = [r for r in reqs if r.split(" ")[0] not in ("strtoarray", "allocstring")
-                        and not (r.startswith("flow string_"))]
+                reqs = [r for r in reqs if r.split(" ")[0] not in ("strtoarray", "allocstring", "vflow")
+                        and not (r.startswith("flow string_")) and not (r.startswith("aflow string_"))]
             ncorp = len(reqs)
             treq = tie_requests(N, language)
             freq = flow_requests(min(N, 6) if thorough else 4, language)
-            tie_part = [r for r in reqs if not r.startswith("flow ")] + treq
-            flow_part = [r for r in reqs if r.startswith("flow ")] + freq
+            isflow = lambda r: r.split(" ")[0] in ("flow", "aflow", "vflow")
+            tie_part = [r for r in reqs if not isflow(r)] + treq
+            flow_part = [r for r in reqs if isflow(r)] + freq
             impl = run_c(exe, tie_part + flow_part)
             ctx.count(len(impl))
             totals[language] = {"corpus": ncorp, "tie": len(treq), "flows": len(freq)}
             # ---- tie: model vs code
             model = None
             if drv.available() and ok:
-                model = drv.run(tie_part)
-                for q, a, b in zip(tie_part, impl, model):
+                model = drv.run(tie_part + flow_part)
+                for q, a, b in zip(tie_part + flow_part, impl, model):
                     if a != b:
                         disagreements.append({"language": language, "request": q, "impl": a, "model": b})
             for q, a in zip(tie_part, impl):
@@ -782,7 +950,7 @@ def run(ctx):
             for q, a in zip(tie_part + flow_part, impl):
                 why = oracle(q, a)
                 if why:
-                    op = " ".join(q.split(" ")[:2]) if q.startswith("flow") else q.split(" ")[0]
+                    op = " ".join(q.split(" ")[:2]) if q.split(" ")[0] in ("flow", "aflow", "vflow") else q.split(" ")[0]
                     per_op[op] = per_op.get(op, 0) + 1
                     if per_op[op] <= 2:
                         if ctx.fail("%s:%s" % (language, q), why, {"language": language, "request": q, "answer": a}):
